@@ -590,36 +590,36 @@ package jsonpath
 
 // promoted validate methods of the comparators (synthesised wrappers, verified like any function)
 //@ func (*syntaxCompareDirectEQ).validate
-//@   props C03 C04 C05 C06 C10 C20
+//@   props C03 C04 C05 C06 C10 C20 C09
 //@   implements syntaxComparator.validate
 //@   unfold WFcmp(this) ==> WFdirectDef(self)
 //@ func (*syntaxCompareDeepEQ).validate
-//@   props C03 C04 C05 C06 C10 C20
+//@   props C03 C04 C05 C06 C10 C20 C09
 //@   implements syntaxComparator.validate
 //@   unfold WFcmp(this) ==> WFdeepDef(self)
 //@ func (*syntaxCompareGE).validate
-//@   props C03 C04 C05 C06 C10 C20
+//@   props C03 C04 C05 C06 C10 C20 C09
 //@   implements syntaxComparator.validate
 //@   unfold WFcmp(this) ==> WFgeDef(self)
 //@ func (*syntaxCompareGT).validate
-//@   props C03 C04 C05 C06 C10 C20
+//@   props C03 C04 C05 C06 C10 C20 C09
 //@   implements syntaxComparator.validate
 //@   unfold WFcmp(this) ==> WFgtDef(self)
 //@ func (*syntaxCompareLE).validate
-//@   props C03 C04 C05 C06 C10 C20
+//@   props C03 C04 C05 C06 C10 C20 C09
 //@   implements syntaxComparator.validate
 //@   unfold WFcmp(this) ==> WFleDef(self)
 //@ func (*syntaxCompareLT).validate
-//@   props C03 C04 C05 C06 C10 C20
+//@   props C03 C04 C05 C06 C10 C20 C09
 //@   implements syntaxComparator.validate
 //@   unfold WFcmp(this) ==> WFltDef(self)
 //@ func (*syntaxCompareRegex).validate
-//@   props C03 C04 C05 C06 C10 C20
+//@   props C03 C04 C05 C06 C10 C20 C09
 //@   implements syntaxComparator.validate
 //@   unfold WFcmp(this) ==> WFregexDef(self)
 
 //@ func (*syntaxCompareDirectEQ).comparator
-//@   props C03 C04 C05 C06 C10 C20
+//@   props C03 C04 C05 C06 C10 C20 C09
 //@   implements syntaxComparator.comparator
 //@   unfold WFcmp(this) ==> WFdirectDef(c)
 //@   loop 1 invariant own: mine(left) && typedList(vkind(this), left)
@@ -627,7 +627,7 @@ package jsonpath
 //@   loop 1 invariant todo: cmpTodo(left, rangeindex)
 //@   loop 1 invariant found: hasValue <==> cmpFound(this, left, right, rangeindex)
 //@ func (*syntaxCompareDeepEQ).comparator
-//@   props C03 C04 C05 C06 C10 C20
+//@   props C03 C04 C05 C06 C10 C20 C09
 //@   implements syntaxComparator.comparator
 //@   unfold WFcmp(this) ==> WFdeepDef(c)
 //@   loop 1 invariant own: mine(left) && typedList(0, left)
@@ -635,7 +635,7 @@ package jsonpath
 //@   loop 1 invariant todo: cmpTodo(left, rangeindex)
 //@   loop 1 invariant found: hasValue <==> cmpFound(this, left, right, rangeindex)
 //@ func (*syntaxCompareGE).comparator
-//@   props C03 C04 C05 C06 C10 C20
+//@   props C03 C04 C05 C06 C10 C20 C09
 //@   implements syntaxComparator.comparator
 //@   unfold WFcmp(this) ==> WFgeDef(c)
 //@   loop 1 invariant own: mine(left) && typedList(1, left)
@@ -643,7 +643,7 @@ package jsonpath
 //@   loop 1 invariant todo: cmpTodo(left, rangeindex)
 //@   loop 1 invariant found: hasValue <==> cmpFound(this, left, right, rangeindex)
 //@ func (*syntaxCompareGT).comparator
-//@   props C03 C04 C05 C06 C10 C20
+//@   props C03 C04 C05 C06 C10 C20 C09
 //@   implements syntaxComparator.comparator
 //@   unfold WFcmp(this) ==> WFgtDef(c)
 //@   loop 1 invariant own: mine(left) && typedList(1, left)
@@ -651,7 +651,7 @@ package jsonpath
 //@   loop 1 invariant todo: cmpTodo(left, rangeindex)
 //@   loop 1 invariant found: hasValue <==> cmpFound(this, left, right, rangeindex)
 //@ func (*syntaxCompareLE).comparator
-//@   props C03 C04 C05 C06 C10 C20
+//@   props C03 C04 C05 C06 C10 C20 C09
 //@   implements syntaxComparator.comparator
 //@   unfold WFcmp(this) ==> WFleDef(c)
 //@   loop 1 invariant own: mine(left) && typedList(1, left)
@@ -659,7 +659,7 @@ package jsonpath
 //@   loop 1 invariant todo: cmpTodo(left, rangeindex)
 //@   loop 1 invariant found: hasValue <==> cmpFound(this, left, right, rangeindex)
 //@ func (*syntaxCompareLT).comparator
-//@   props C03 C04 C05 C06 C10 C20
+//@   props C03 C04 C05 C06 C10 C20 C09
 //@   implements syntaxComparator.comparator
 //@   unfold WFcmp(this) ==> WFltDef(c)
 //@   loop 1 invariant own: mine(left) && typedList(1, left)
@@ -667,7 +667,7 @@ package jsonpath
 //@   loop 1 invariant todo: cmpTodo(left, rangeindex)
 //@   loop 1 invariant found: hasValue <==> cmpFound(this, left, right, rangeindex)
 //@ func (*syntaxCompareRegex).comparator
-//@   props C03 C04 C05 C06 C10 C20
+//@   props C03 C04 C05 C06 C10 C20 C09
 //@   implements syntaxComparator.comparator
 //@   unfold WFcmp(this) ==> WFregexDef(r)
 //@   loop 1 invariant own: mine(left) && typedList(3, left)
